@@ -411,9 +411,10 @@ class InvariantMonitor(Monitor):
             n_rel = [i for i in tasks if i.identity in rel_ids]
             if not n_rel:
                 continue
-            non_manual = [i for i in tasks
-                          if self.ident(i) not in self.manual]
-            if len(tasks) > lim and len(non_manual) > lim:
+            # (a manually triggered member counts like any other: it may
+            # take the queue over its limit, the queue itself may not
+            # release on top of it)
+            if len(tasks) > lim:
                 self.v('C05', 'queue_limit_exceeded', {
                     'queue': qname, 'limit': lim,
                     'active': sorted(i.identity for i in tasks),
